@@ -16,6 +16,8 @@ KINDS = {  # kind -> (NBufs, HasChild, NShared) of the model instance that descr
 for c in ("gzip", "xz", "lzma", "lz4", "zstd"):
     KINDS["comp_%s_c" % c] = (1, False, 0)
     KINDS["comp_%s_u" % c] = (1, False, 0)
+    KINDS["comp_%s_o" % c] = (1, False, 0)          # compressors created with non-default options (window / level / dictionary / lc lp pb / filters)
+    KINDS["comp_%s_p" % c] = (1, False, 0)
 DEVS = ["CopyWithoutObjectInit", "ChildCopyWithoutObjectInit", "ShallowBuffer", "SharedNotGrabbed",
         "RefcountCopied", "ChildNotCopied", "FailedCopyReleasesOriginal"]
 
